@@ -3,3 +3,5 @@
 package interp
 
 func verifStep(*node, *frame, bltn, bool) {}
+
+func verifGoStart(*Interpreter, int) {}
